@@ -9,6 +9,7 @@
 //   variant  = ab | ba | aa | ae<k> | ea<k>   (k: kind of EMPTY operand, see EMPTY_WKT)      unary: a | gab (collection {A,B})
 // Expect line is always "ok": the driver evaluates the exact point-set specification on (A, B, result).
 #include "gridgen.h"
+#include "c03clip.h"
 #include <geos/operation/overlayng/OverlayNG.h>
 #include <geos/operation/overlayng/OverlayNGRobust.h>
 #include <geos/operation/overlayng/OverlayUtil.h>
@@ -189,6 +190,7 @@ int main(int argc, char** argv) {
             out.count(std::string("isEmptyResult_") + (v ? "true" : "false"));
             out.emit("E " + std::to_string(op) + " | " + ta + " | " + tb, v ? "1" : "0"); }
         GEOS_finish_r(h); return 0; }
+    if (stream == "overlay-input") { c03clip::streamInput(r, h, out, n); GEOS_finish_r(h); return 0; }
     bool dbl = stream == "overlay-dbl";
     GridGen gen(r, h, &out); Ctx c{h, &out};
     static const char* BIN[] = {"int", "uni", "dif", "sym"};
@@ -198,7 +200,43 @@ int main(int argc, char** argv) {
         bool cov = r.chance(6);
         GGeom A, B;
         bool bigSmall = !cov && r.chance(dbl ? 4 : 9);
+        // families that reach OverlayNG's input preparation (ring clipping, clip-envelope computation, line limiting), a fixed share of every run
+        int special = (!cov && r.chance(dbl ? 10 : 16)) ? 1 + (int) r.below(3) : 0;
+        if (special) bigSmall = false;
         if (cov) { A = coverage(r, out); B.container = 2; }
+        else if (special == 1) {
+            // a polygon that wraps around its partner without containing it (thick C with tabs reaching into the cavity), partner inside the
+            // cavity at the end of a tab: the clipped ring runs along the clip rectangle and back
+            long S = r.range(8, 14); auto hs = c03clip::horseshoe(r, S); GElem e; e.kind = 2; e.rings.push_back(hs.ring); A.container = 0; A.elems.push_back(e);
+            long wx0, wy0, wx1, wy1;
+            if (!hs.tabEnds.empty() && r.chance(80)) { IPt te = hs.tabEnds[r.below(hs.tabEnds.size())]; wx0 = te.x - r.range(1, 3); wx1 = te.x + r.range(0, 2); wy0 = te.y - r.range(1, 2); wy1 = te.y + 1 + r.range(1, 2); }
+            else { wx0 = r.range((int) hs.cx0, (int) hs.cx1 - 1); wy0 = r.range((int) hs.cy0, (int) hs.cy1 - 1); wx1 = wx0 + r.range(1, 3); wy1 = wy0 + r.range(1, 3); }
+            long lo = hs.cx0 + (r.chance(80) ? 1 : 0), hi = hs.cx1 - (r.chance(80) ? 1 : 0);
+            wx0 = std::max(lo, std::min(hi - 1, wx0)); wx1 = std::max(wx0 + 1, std::min(hi, wx1)); wy0 = std::max(lo, std::min(hi - 1, wy0)); wy1 = std::max(wy0 + 1, std::min(hi, wy1));
+            B = c03clip::smallPartner(r, wx0, wy0, wx1, wy1);
+            if (r.chance(50)) std::swap(A, B);
+            out.count("wrap_around_partner"); }
+        else if (special == 2) {
+            // a polygon with a large hole with sloped edges; a small partner with exact contacts (vertices on it, a side along it) on ONE hole edge,
+            // much shorter than that edge
+            long S = 2 * r.range(4, 8); GElem e = c03clip::holed(r, S); A.container = 0; A.elems.push_back(e);
+            long wx0 = 1, wy0 = 1, wx1 = 3, wy1 = 3; std::vector<IPt> must;
+            if (e.rings.size() > 1) { auto& hl = e.rings[1]; size_t q = r.below(hl.size() - 1); IPt a = hl[q], b = hl[q + 1]; long g = gcdl(b.x - a.x, b.y - a.y);
+                if (g > 0) { long ux = (b.x - a.x) / g, uy = (b.y - a.y) / g; long i0 = r.range(0, (int) g - 1), i1 = std::min(g, i0 + r.range(1, 2)); IPt c0{a.x + i0 * ux, a.y + i0 * uy}, c1{a.x + i1 * ux, a.y + i1 * uy};
+                    int mode = (int) r.below(100); if (mode < 55) { must.push_back(c0); must.push_back(c1); } else if (mode < 85) must.push_back(c0);
+                    wx0 = std::min(c0.x, c1.x) - r.range(0, 2); wx1 = std::max(c0.x, c1.x) + r.range(0, 2); wy0 = std::min(c0.y, c1.y) - r.range(0, 2); wy1 = std::max(c0.y, c1.y) + r.range(0, 2); } }
+            wx0 = std::max(1L, wx0); wy0 = std::max(1L, wy0); wx1 = std::min(S - 1, std::max(wx0 + 1, wx1)); wy1 = std::min(S - 1, std::max(wy0 + 1, wy1));
+            B = c03clip::smallPartner(r, wx0, wy0, wx1, wy1, must);
+            if (r.chance(50)) std::swap(A, B);
+            out.count("hole_edge_contact"); }
+        else if (special == 3) {
+            // several long lattice walks (more than 20 vertices each) wandering in and out of the neighbourhood of a small area
+            long U = r.range(9, 14); long wx0 = r.range(2, (int) U - 5), wy0 = r.range(2, (int) U - 5), wx1 = wx0 + r.range(2, 3), wy1 = wy0 + r.range(2, 3);
+            A.container = 1; int nl = r.chance(75) ? 2 : 3;        // (the exact oracle is quadratic in the number of segments: keep them just above the limit of 20)
+            for (int q = 0; q < nl; q++) { GElem e; e.kind = 1; e.rings.push_back(c03clip::walkLine(r, U, r.range(21, 24))); A.elems.push_back(e); }
+            B = c03clip::smallPartner(r, wx0, wy0, wx1, wy1); if (B.elems[0].kind != 2) { GElem e; e.kind = 2; e.rings.push_back({{wx0, wy0}, {wx1, wy0}, {wx1, wy1}, {wx0, wy1}, {wx0, wy0}}); B.elems[0] = e; }
+            if (r.chance(50)) std::swap(A, B);
+            out.count("long_lines_small_area"); }
         else if (bigSmall) {
             // a big operand with many vertices (every edge cut into m lattice pieces) and a small partner somewhere inside its extent,
             // with exact contacts on the big one's linework: the envelopes overlap only partly and the rings / lines have more than
@@ -226,7 +264,7 @@ int main(int argc, char** argv) {
             B = r.chance(4) ? A : gen.geom(kind(), true, false);
             if (r.chance(50)) std::swap(A, B); }
         long scaleM = 1;
-        if (!cov && !bigSmall && r.chance(dbl ? 4 : 7)) {
+        if (!cov && !bigSmall && !special && r.chance(dbl ? 4 : 7)) {
             long m = r.range(5, 9); int which = (int) r.below(2); scaleM = m;          // one operand gets the vertices (the exact oracle is quadratic in them)
             scaleGeom(A, m, which == 0); scaleGeom(B, m, which == 1); out.count("many_vertices"); }
         std::string ta, tb; Xform t; DX d;
